@@ -4,10 +4,12 @@ import (
 	"fmt"
 	"math/big"
 	"runtime"
+	"strings"
 	"time"
 
 	sdkmath "cosmossdk.io/math"
 	sdk "github.com/cosmos/cosmos-sdk/types"
+	authtypes "github.com/cosmos/cosmos-sdk/x/auth/types"
 	banktypes "github.com/cosmos/cosmos-sdk/x/bank/types"
 	"github.com/ethereum/go-ethereum/common"
 	ethtypes "github.com/ethereum/go-ethereum/core/types"
@@ -133,6 +135,12 @@ func DefaultGas(k TxKind) uint64 {
 	case KOutOfGas:
 		return 30000
 	}
+	if mode, _, ok := k.ValueRecipient(); ok {
+		if mode == ModePay {
+			return 21000
+		}
+		return 60000 // 21000 + cold account 2600 + value transfer 9000 (CALL) or 5000 (SELFDESTRUCT) + 25000 when the recipient is new
+	}
 	return 100000
 }
 
@@ -206,7 +214,20 @@ func BuildTx(w *world.World, s TxSpec, b *big.Int) []byte {
 			data = Enc("transfer(address,uint256)", AddrWord(AddrSink), Word(big.NewInt(Erc20TransferAmount)))
 		}
 	default:
-		panic("unknown kind " + s.Kind)
+		mode, r, ok := s.Kind.ValueRecipient()
+		if !ok {
+			panic("unknown kind " + s.Kind)
+		}
+		switch mode {
+		case ModePay: // plain value transfer, top-level `to` is the recipient
+			set(r.Addr(w, s.Sender))
+			value = big.NewInt(RecipientValue)
+		case ModeForward: // the gadget receives the value and CALLs the recipient with the same value
+			set(AddrForwardTo(r))
+			value = big.NewInt(RecipientValue)
+		case ModeSuicide: // the funded gadget names the recipient as SELFDESTRUCT beneficiary
+			set(AddrSuicideTo(r))
+		}
 	}
 	nonce := s.Nonce
 	if s.Kind == KBadNonce {
@@ -265,3 +286,124 @@ func Shards() int {
 func (k TxKind) IsEth() bool { return k != KCosmosSend }
 
 func secs(n int) time.Duration { return time.Duration(n) * time.Second }
+
+// ---------------------------------------------------------------------------------------------------------------------
+// Value-recipient kinds: "who receives the value" is an alphabet dimension of its own. A kind "<mode>:<recipient>" moves
+// RecipientValue (or, for ModeSuicide, the whole balance of a funded gadget) to the recipient in one of three ways:
+// as top-level `to` of the tx, as target of a value-carrying CALL made by a contract, or as SELFDESTRUCT beneficiary.
+// Recipients are the module accounts of the chain (all of them are on the bank keeper's blocked list), plus ordinary
+// recipients as positive controls of the gadgets.
+// ---------------------------------------------------------------------------------------------------------------------
+
+// Recipient names a receiver of value: a module account name, or one of the control recipients below.
+type Recipient string
+
+const (
+	RcpSink   Recipient = "@sink"   // AddrSink, a code-less ordinary address (positive control)
+	RcpSelf   Recipient = "@self"   // the sender of the tx
+	RcpWallet Recipient = "@wallet" // the next wallet after the sender
+)
+
+// ModuleRecipients are the names of all module accounts of the app (x/auth module-account permissions of app/modules.go;
+// checked against the running app by the alphabet-sanity pass of the ledger checks), the two the property speaks about first.
+var ModuleRecipients = []Recipient{"evm", "fee_collector", "bonded_tokens_pool", "distribution", "not_bonded_tokens_pool", "gov", "mint", "transfer", "interchainaccounts", "vauth", "cpc"}
+
+// GadgetRecipients are the recipients that have a forwarding and a self-destructing gadget contract installed (LedgerContracts).
+var GadgetRecipients = []Recipient{RcpSink, "evm", "fee_collector", "bonded_tokens_pool", "distribution"}
+
+// IsModule tells whether the recipient is a module account.
+func (r Recipient) IsModule() bool { return !strings.HasPrefix(string(r), "@") }
+
+// Addr resolves the recipient for a tx sent by wallet `sender` of w.
+func (r Recipient) Addr(w *world.World, sender int) common.Address {
+	switch r {
+	case RcpSink:
+		return AddrSink
+	case RcpSelf:
+		return w.Wallets[sender].Eth()
+	case RcpWallet:
+		return w.Wallets[(sender+1)%len(w.Wallets)].Eth()
+	}
+	return common.BytesToAddress(authtypes.NewModuleAddress(string(r)))
+}
+
+// StaticAddr is Addr for recipients that do not depend on the sender (module accounts and the sink).
+func (r Recipient) StaticAddr() common.Address {
+	if r == RcpSink {
+		return AddrSink
+	}
+	if !r.IsModule() {
+		panic("recipient " + string(r) + " depends on the sender")
+	}
+	return common.BytesToAddress(authtypes.NewModuleAddress(string(r)))
+}
+
+// RecipientMode is how the value reaches the recipient.
+type RecipientMode string
+
+const (
+	ModePay     RecipientMode = "pay"     // top-level value transfer
+	ModeForward RecipientMode = "forward" // contract CALL forwarding the value it received
+	ModeSuicide RecipientMode = "suicide" // SELFDESTRUCT beneficiary
+)
+
+// RecipientValue is the value carried by ModePay / ModeForward txs; SuicideGadgetFunds the balance of each ModeSuicide gadget.
+const (
+	RecipientValue     = 3
+	SuicideGadgetFunds = 900
+)
+
+// KRecipient is the kind moving value to r in the given mode.
+func KRecipient(mode RecipientMode, r Recipient) TxKind {
+	return TxKind(string(mode) + ":" + string(r))
+}
+
+// ValueRecipient decodes a value-recipient kind.
+func (k TxKind) ValueRecipient() (RecipientMode, Recipient, bool) {
+	i := strings.IndexByte(string(k), ':')
+	if i < 0 {
+		return "", "", false
+	}
+	mode, r := RecipientMode(k[:i]), Recipient(k[i+1:])
+	switch mode {
+	case ModePay, ModeForward, ModeSuicide:
+		return mode, r, r != ""
+	}
+	return "", "", false
+}
+
+func gadgetIndex(r Recipient) uint64 {
+	for i, x := range GadgetRecipients {
+		if x == r {
+			return uint64(i)
+		}
+	}
+	panic("no gadget contract for recipient " + string(r))
+}
+
+// AddrForwardTo / AddrSuicideTo are the fixed addresses of the gadget contracts of recipient r.
+func AddrForwardTo(r Recipient) common.Address {
+	return common.BigToAddress(new(big.Int).SetUint64(0x0c0100 + gadgetIndex(r)))
+}
+func AddrSuicideTo(r Recipient) common.Address {
+	return common.BigToAddress(new(big.Int).SetUint64(0x0c0200 + gadgetIndex(r)))
+}
+
+// RecipientContracts are the gadgets of the value-recipient kinds: per gadget recipient one contract that CALLs the recipient with
+// value RecipientValue and all gas (ignoring the result: if the inner call merely fails the value stays with the gadget), and one
+// funded contract that SELFDESTRUCTs with the recipient as beneficiary.
+func RecipientContracts() []world.Contract {
+	var out []world.Contract
+	for _, r := range GadgetRecipients {
+		to := r.StaticAddr()
+		out = append(out,
+			world.Contract{Addr: AddrForwardTo(r), Code: asm.New().Call(asm.KCall, to, RecipientValue, 0, 0, 0, 0, 0).Op(asm.POP).Stop().Bytes()},
+			world.Contract{Addr: AddrSuicideTo(r), Code: asm.New().SelfDestruct(to).Bytes(),
+				Coins: sdk.NewCoins(sdk.NewCoin(world.Denom, sdkmath.NewInt(SuicideGadgetFunds)))},
+		)
+	}
+	return out
+}
+
+// LedgerContracts is the gadget set of the ledger checks: StdContracts plus the value-recipient gadgets.
+func LedgerContracts() []world.Contract { return append(StdContracts(), RecipientContracts()...) }
